@@ -80,8 +80,8 @@ def loopback_case(mode, maxdata, size, seed, rcvbuf=4096, read_pause=0.001, time
     data = scen.fast_pattern(seed, size)
     out = dict(mode=mode, maxdata=maxdata, size=size)
     import time as realtime
-    m['sync'].time = realtime
-    m['asyn'].time = realtime
+    env.bind_time(realtime, m['sync'])
+    env.bind_time(realtime, m['asyn'])
     import threading
     m['sync'].Lock = threading.Lock
     m['asyn'].Lock = asyncio.Lock
